@@ -364,10 +364,15 @@ def check_C19(o, tier):
         profs.append(prof)
         check_profile(o, prof, "gen", {"VERIF_SEED": o.seed, "VERIF_N": 20000 if not thorough else 400000}, "cfgdefaults", C19_MONITORS)
 
+    # source-text pin of the limiter block (Properties/C19Pins.lean): a trigger, not an obligation - when the text is no longer
+    # the one the model was written for, the limiter correspondence runs at the depth of the thorough tier and decides
+    pin_ok, pin_out = core.lake_build(["Properties.C19Pins"])
+    o.notes["limiter_text_pin"] = "unchanged" if pin_ok else "differs from the text Cfg.RL.step was written for: deep limiter run"
+    deep_rl = thorough or not pin_ok
     prof = ratelimit_profile(o)
     if prof is not None:
         profs.append(prof)
-        check_profile(o, prof, "gen", {"VERIF_SEED": o.seed, "VERIF_N": 3000 if not thorough else 60000}, "ratelimit", C19_MONITORS)
+        check_profile(o, prof, "gen", {"VERIF_SEED": o.seed, "VERIF_N": 3000 if not deep_rl else 60000}, "ratelimit", C19_MONITORS)
         o.notes.setdefault("distribution", {})["ratelimit"] = distribution(prof, "ratelimit")
 
     prof = switches_profile(o)
